@@ -320,8 +320,9 @@ def describe(args, kwargs):
     return [d(a) for a in args], {k: d(v) for k, v in kwargs.items()}
 
 
-def check_function(name, fn, ctx, xs, ys, idx=None):
-    """All argument patterns of one function on one curve.  Returns (ncalls, nontrivial, failures)."""
+def check_function(name, fn, ctx, xs, ys, idx=None, record=None):
+    """All argument patterns of one function on one curve.  Returns (ncalls, nontrivial, failures).
+    `record` (dict) receives the C-representation result per pattern, for the call-history comparison."""
     out = []
     ncalls = 0
     nontriv = 0
@@ -346,6 +347,8 @@ def check_function(name, fn, ctx, xs, ys, idx=None):
                 break
         else:
             base = results['C']
+            if record is not None:
+                record[pi] = base
             # determinism
             r2, _ = call_rep(fn, args, kwargs, 'C')
             ncalls += 1
@@ -505,12 +508,15 @@ def run_unit(unit, res):
     P = curves.get(prof)
     funcs = public_functions()
     first = True
+    early = []                       # (xs, ys, {function: {pattern: result}}) of the first curves of the unit
     for i, xs, ys in P.shard(n, k, K):
         ctx = Ctx(xs, ys)
+        rec = {}
+        early.append((xs, ys, rec))
         for name in sorted(funcs):
             if name not in SPECS:
                 continue
-            nc, nt, fs = check_function(name, funcs[name], ctx, xs, ys)
+            nc, nt, fs = check_function(name, funcs[name], ctx, xs, ys, record=rec.setdefault(name, {}))
             res.count('evaluations', nc)
             res.count('states', nc)
             res.count('transitions', nc)
@@ -522,6 +528,26 @@ def run_unit(unit, res):
         if first:
             first = False
             res.sample({'dynamic': {'profile': prof, 'x': xs, 'y': ys, 'functions': len(set(funcs) & set(SPECS)), 'representations': list(REPS)}})
+    # "returns identical results when called again": the same calls, later in the history of this process
+    # second pass in FUNCTION-major order (the first pass was curve-major): the same call on different curves
+    # back to back is what exposes per-function state keyed too weakly
+    ctxs = [(xs, ys, rec, Ctx(xs, ys)) for xs, ys, rec in early]
+    for name in sorted(funcs):
+        if name not in SPECS:
+            continue
+        for xs, ys, rec, ctx in ctxs:
+            pats = rec.get(name, {})
+            for pi, (args, kwargs) in enumerate(SPECS[name](ctx)):
+                if pi not in pats:
+                    continue
+                again, _ = call_rep(funcs[name], args, kwargs, 'C')
+                res.count('evaluations')
+                res.count('history_recalls')
+                b = pats[pi]
+                if (b[0] != again[0]) or (b[0] == 'ok' and not same(b[1], again[1], 0)) or (b[0] == 'exc' and b[1] != again[1]):
+                    res.fail(Failure(name, 'result-depends-on-call-history', '%s pattern=%d %s' % (name, pi, lib.pts_key(xs, ys)),
+                                     {'oracle': 'dynamic', 'function': name, 'x': list(xs), 'y': list(ys), 'pattern': pi},
+                                     'first call %s; same call after other curves were processed %s' % (str(b)[:200], str(again)[:200]), (ctx.n, pi)))
     res.notes['dynamic_n_max_' + prof.split('+')[0]] = n
 
 
